@@ -54,6 +54,13 @@ CLAIMED.update({
     'C15': ('copy/freeze/thaw class and equality, None->None, independence under a symbolic assignment on either object, frozen '
             'immutability, copy(**overrides) with wide symbolic values against a fresh construction (same result or same exception '
             'class), hash/dict-key behaviour over an attribute menu; for 33 message kinds.', '4/C15'),
+    'C13': ('The real __iter__/length/play/tick2second/second2tick run on symbolic ticks, tempos and ticks_per_beat (z3 Int) and '
+            'symbolic real clocks: cumulative time equals the exact tempo-map integral in the exact-real model (and within '
+            '(4n+4) ulp in the standard (1+d) rounding model for small shapes); play never early, sleeps exactly the remainder, no '
+            'drift; units inverse. Bit-exact IEEE arithmetic is outside (stated).', '4/C13'),
+    'C16': ('observe / edit / observe histories on symbolic files: after each of 17 documented edits (optionally preceded by an '
+            'observation that could populate a cache) every observation (iterate, length, merged_track, save, play) equals the '
+            'one on a freshly built file; hidden state is checked to be at most the merge cache.', '4/C16'),
 })
 
 PENDING = {}     # id -> reason (not claimed)
